@@ -18,6 +18,16 @@ class C07(Check):
     assumptions = ["one re-run (the statement is about one)"]
     budgets = {"quick": {"n": 130, "wall": 170}, "thorough": {"n": 1700, "wall": 1700}}
 
+    def extra_batches(self, tier):
+        """one fixed experiment per listed known finding, so that each is demonstrated (or seen fixed) on every run"""
+        simple = {"sched": {"seed": 0, "policy": "fifo", "line_p": 0.0}, "workers": None, "enum_seed": None, "hashseed": 0}
+        out = []
+        for cid, sn in (("pixee:python/flask-json-response-type", [463, 464]), ("pixee:python/harden-pyyaml", [502, 485]),
+                        ("pixee:python/order-imports", [757, 763])):
+            out.append({"kind": "fixed:known", "world_spec": {"files": [{"path": "pkg/two.py", "snippets": sn, "layout": {}}]}, "include": [cid],
+                        "plugins": False, "path_include": None, "extra_findings": {}, "runs": [simple, simple]})
+        return out
+
     def gen(self, rng, i, tier):
         # ONE codemod per experiment: the statement is about re-running "the same codemod"; a sequence K1;K2 is not
         # claimed to be a fixed point (K1 may legitimately act on what K2 produced)
